@@ -82,6 +82,9 @@ type Inj struct {
 	Required bool   `json:"required"`
 	Computed bool   `json:"computed"`
 	Optional bool   `json:"optional"`
+	// validators / plan modifiers of the injected attribute itself (tags, as for fields)
+	Validators []string `json:"validators"`
+	PlanMods   []string `json:"planmods"`
 }
 
 // KV is an ordered key/value pair (maps are kept as lists so that the
@@ -121,6 +124,8 @@ type Alt struct {
 	// parameter at all), "empty" (a zero-byte file), "comments" (a file whose entries are all commented out).  The last three
 	// need a configuration that is delivered on the command line entirely.
 	CfgFile string `json:"cfgfile"`
+	// CliGap: an EMPTY entry in every `+`-separated list of the command line: 0 none, 1 in front, 2 after the first entry, 3 at the end
+	CliGap int `json:"cligap"`
 }
 
 // Cfg is the abstract configuration.
@@ -162,6 +167,7 @@ type Cfg struct {
 	// YamlStyle / BoolStyle of this rendering (set from the alternative being rendered)
 	YamlStyle string `json:"yamlstyle"`
 	BoolStyle string `json:"boolstyle"`
+	CliGap    int    `json:"cligap"`
 	// Raw overrides for C16 failure cases: "" | noconfig | missingfile | malformed | notypes
 	Fault string `json:"fault"`
 }
